@@ -25,7 +25,7 @@ from harness import designpower_util as U
 from harness.gnpy_util import TD
 
 BOUNDS = {
-    'quick': [dict(max_lib=2, wide=False, stride=9)],
+    'quick': [dict(max_lib=2, wide=False, stride=7)],
     'thorough': [dict(max_lib=3, wide=True, stride=23), dict(max_lib=4, wide=False, stride=211)],
 }
 CLAUSES = ['ChosenPermitted', 'CoversBand', 'RamanOnlyIfAllowed', 'CapableIfPossible', 'QuietestCapable',
@@ -76,12 +76,17 @@ def concretise(js, variable_gain):
                                          max_fiber_lineic_loss_for_raman=db(c['ramanLimit']), max_length=150,
                                          length_units='km'), si=SI)
     g, pos = db(c['g']), c['pos']
-    coef = db(c['lossCoef'])
     losses = [20.0, 20.0]
-    coefs = [0.2, 0.2]
+    coefs = [0.2, 0.2]                  # dB/km at the fibre's reference frequency (sets the length for a given loss)
+    decl = [0.2, 0.2]                   # what the topology declares as loss_coef
     if pos in (INLINE, PREAMP):
-        losses[pos - 1], coefs[pos - 1] = g, coef
-    spans = [[dict(kind='fiber', length_km=(L - 0.5) / k, loss_coef=k)] for L, k in zip(losses, coefs)]
+        ref = db(c['lossCoefRef'])
+        losses[pos - 1], coefs[pos - 1], decl[pos - 1] = g, ref, ref
+        if c['fibre'] == 2:
+            # frequency-dependent coefficient: 0.30 dB/km at the lower edge of the design band, 0.24 dB/km from 193.2 THz
+            # on (the fibre's reference frequency, 193.41 THz, lies there): above the Raman limit on part of the band
+            decl[pos - 1] = {'value': [db(c['lossCoef']), ref, ref], 'frequency': [193.0e12, 193.2e12, 193.6e12]}
+    spans = [[dict(kind='fiber', length_km=(L - 0.5) / k, loss_coef=d)] for L, k, d in zip(losses, coefs, decl)]
     judged = {}
     own = [mname(a) for a in lib if a['own']]
     if c['useOwn'] and own:
@@ -136,7 +141,7 @@ def run_case(js, variable_gain, tag):
 
 def describe(js):
     c = js['c']
-    return dict(g=db(c['g']), p=db(c['p']), position=['booster', 'inline', 'preamp'][c['pos']], fibreOK=c['fibreOK'],
+    return dict(g=db(c['g']), p=db(c['p']), position=['booster', 'inline', 'preamp'][c['pos']], fibre=['0.2 dB/km', '0.3 dB/km', '0.30..0.24 dB/km'][c['fibre']],
                 useOwn=c['useOwn'], useRdm=c['useRdm'],
                 library=[{k: (db(a[k]) if k in ('gmin', 'flat', 'pmax', 'nf0', 'nf') else a[k])
                           for k in ('id', 'gmin', 'flat', 'pmax', 'nf0', 'nf', 'raman', 'fmin', 'own', 'rdm', 'alw')}
@@ -232,6 +237,8 @@ def run_b3(chk):
             if strip and str(topo).endswith(('.xls', '.xlsx')):
                 continue
             for mode in (True, False):
+                if strip and not mode and chk.tier == 'quick':
+                    continue                    # placeholder variants in gain mode: thorough tier only
                 tag = f'{name}{"-placeholders" if strip else ""}|{"power" if mode else "gain"}'
                 try:
                     net, eq, ref, rec = U.design(topo, eqf, extra, power_mode=mode, strip=strip)
@@ -250,6 +257,27 @@ def run_b3(chk):
                 tr, cx = U.selection_traces(net, eq, rec, tag)
                 traces += tr
                 ctxs.update({c['name']: c for c in cx})
+    # generalised designs of a shipped network with placeholder amplifiers: (a) the SI band equal to the band of the
+    # library's default amplifier models (design-band edges coincide with model edges), (b) every model allowed for
+    # design and 5 dBm per channel (the required total power exceeds the p_max of some otherwise suitable models)
+    from harness.gnpy_util import EX
+    for vname, kw in (('meshV2-placeholders-si-band-equals-amplifier-band', dict(si=dict(f_min=191.275e12, f_max=196.125e12))),
+                      ('meshV2-placeholders-all-models-allowed-5dBm',
+                       dict(si=dict(power_dbm=5, tx_power_dbm=5), edfa_attrs={'allowed_for_design': True}))):
+        tag = f'{vname}|power'
+        try:
+            net, eq, ref, rec = U.design(EX / 'meshTopologyExampleV2.json', EX / 'eqpt_config.json', (), power_mode=True,
+                                         strip=True, **kw)
+        except U.LoadError as e:
+            chk.cov.setdefault('b3_not_loadable', []).append(f'{tag}: {str(e)[:80]}')
+            continue
+        except Exception as e:                                               # noqa
+            chk.violation(f'B3|{vname}|design-exception|{type(e).__name__}',
+                          dict(variant=vname, exception=f'{type(e).__name__}: {e}'))
+            continue
+        tr, cx = U.selection_traces(net, eq, rec, tag)
+        traces += tr
+        ctxs.update({c['name']: c for c in cx})
     for mode in (True, False):
         for restrict in (None, ['std_medium_gain_multiband']):
             eq = U.load_equipment(TD / 'eqpt_config_multiband.json', power_mode=mode)
@@ -297,14 +325,15 @@ def run(chk):
     b2_traces = []
     n = n_ok = n_open = n_vg = 0
     exercised = dict(own_list=0, roadm_list=0, allowed=0, raman_capable=0, raman_blocked=0, narrow_band=0,
-                     several_capable=0, none_capable=0, refusal_admitted=0, below_min_gain_allowance=0)
+                     several_capable=0, none_capable=0, refusal_admitted=0, below_min_gain_allowance=0,
+                     band_edge_model_is_the_choice=0, quieter_raman_lacks_power=0, mixed_loss_fibre_blocks_quieter_raman=0)
     mism = []
     for b in BOUNDS[chk.tier]:
         r = tlc.run('MC_AmpSelection', cfg_text=mc_cfg(b), timeout=2400, tag='c10-mc')
         chk.add_mc(f'MC_AmpSelection MaxLib={b["max_lib"]} WidePairs={b["wide"]}', r)
         for js in r.emitted:
             c = js['c']
-            key = json.dumps([sorted(a['id'] for a in js['lib']), c['g'], c['pos'], c['fibreOK'], c['useOwn'], c['useRdm']])
+            key = json.dumps([sorted(a['id'] for a in js['lib']), c['g'], c['pos'], c['fibre'], c['useOwn'], c['useRdm']])
             n += 1
             tag = 'B2#' + format(zlib.crc32(key.encode()), '08x')
             got, trace, err = run_case(js, False, tag)
@@ -322,7 +351,7 @@ def run(chk):
                 trace['open'] = 1 if js['open'] else 0
                 b2_traces.append(trace)
             # the same line with the library turned into variable-gain models: judged by the trace specification only
-            got2, trace2, err2 = run_case(js, True, tag + 'vg')
+            got2, trace2, err2 = run_case(js, True, tag + 'vg') if js['cap'] else ('skipped', None, None)
             if trace2 is not None:
                 trace2['open'] = 0
                 b2_traces.append(trace2)
@@ -341,6 +370,15 @@ def run(chk):
             exercised['none_capable'] += len(js['cap']) == 0
             exercised['refusal_admitted'] += got == 'refused'
             exercised['below_min_gain_allowance'] += bool(js['open'])
+            best = min((a['nf'] for a in js['lib'] if a['id'] in js['adm']), default=None)
+            exercised['band_edge_model_is_the_choice'] += bool(js['cap']) and any(
+                a['fmax'] == c['bfmax'] and a['id'] in js['adm'] for a in js['lib'])
+            exercised['quieter_raman_lacks_power'] += bool(js['cap']) and ramanok and any(
+                a['raman'] and a['pmax'] < c['p'] and a['gmin'] < c['g'] < a['flat'] + c['ext'] and a['nf'] < best
+                for a in js['lib'])
+            exercised['mixed_loss_fibre_blocks_quieter_raman'] += bool(js['cap']) and c['fibre'] == 2 and any(
+                a['raman'] and a['pmax'] > c['p'] and a['gmin'] < c['g'] < a['flat'] + c['ext'] and a['nf'] < best
+                for a in js['lib'])
             if len(chk.samples) < 2 and len(js['cap']) > 1 and len(js['adm']) == 1:
                 chk.sample(dict(kind='B2 TLC case designed by the real auto-design', case=describe(js), chosen=got))
     if any(v == 0 for k, v in exercised.items() if k != 'refusal_admitted'):
